@@ -8,7 +8,11 @@
 //! implementing custom join algorithms.
 
 use grafeo_common::types::{EdgeId, NodeId};
+#[cfg(not(kani))]
 use grafeo_common::utils::hash::FxHashMap;
+// verification builds: the recursive trie keeps the real (heap) hash map
+#[cfg(kani)]
+use grafeo_common::utils::hash::HeapFxHashMap as FxHashMap;
 use smallvec::SmallVec;
 
 /// A trie node in the edge trie.
